@@ -33,9 +33,10 @@ import (
 
 // Params of a unit: one scenario.
 type Params struct {
-	Family string
-	Len    int
-	Ops    []world.Op
+	Family  string
+	Len     int
+	Ops     []world.Op
+	Spacing world.Spacing // numbering of the L2 blocks (zero: dense)
 }
 
 // Options select how much of the cut / configuration space an execution walks.
@@ -399,7 +400,7 @@ func Run(c *mc.Ctx, u mc.Unit, opt Options, oracle Oracle) {
 		opt.FEP = true
 		c.Witness("executions_with_the_aggchain_prover_flow")
 	}
-	w, err := world.Build(p.Ops)
+	w, err := world.BuildSpaced(p.Ops, p.Spacing)
 	if err != nil {
 		c.Failf("harness/world", "%v", err)
 		return
@@ -631,7 +632,7 @@ func (x *exec) l2ReorgEpilogue(p Params, states []state, lastL1 uint64) int {
 	}
 	ops2 := append([]world.Op{}, p.Ops...)
 	ops2[idx].A = (ops2[idx].A + 2) % 4 //nolint:mnd // another field variant with the same destination network
-	w2, err := world.Build(ops2)
+	w2, err := world.BuildSpaced(ops2, p.Spacing)
 	if err != nil || len(w2.L2Blocks) != len(w.L2Blocks) || len(w2.L1Blocks) != len(w.L1Blocks) {
 		c.Obs("l2-reorg epilogue skipped: the variant scenario is not a scenario (%v)", err)
 		return 0
@@ -707,8 +708,14 @@ func UnitsOf(fams []world.Family) []mc.Unit {
 	var us []mc.Unit
 	for _, f := range fams {
 		for _, s := range world.Enumerate(f) {
-			us = append(us, mc.Unit{Name: fmt.Sprintf("%s/%d: %s", f.Name, s.Len, world.OpsString(s.Ops)),
-				Params: Params{Family: f.Name, Len: s.Len, Ops: s.Ops}})
+			if f.Spacings == nil {
+				us = append(us, mc.Unit{Name: fmt.Sprintf("%s/%d: %s", f.Name, s.Len, world.OpsString(s.Ops)),
+					Params: Params{Family: f.Name, Len: s.Len, Ops: s.Ops}})
+			}
+			for _, sp := range f.Spacings {
+				us = append(us, mc.Unit{Name: fmt.Sprintf("%s/%d: %s; %s", f.Name, s.Len, world.OpsString(s.Ops), sp),
+					Params: Params{Family: f.Name, Len: s.Len, Ops: s.Ops, Spacing: sp}})
+			}
 		}
 	}
 	return us
